@@ -40,6 +40,11 @@ def gen(rng, tier, run):
     nfac = 0
     nfuncs = rng.randrange(2, 6)
     funcs = [[i, rng.choice(FUNC_NAMES)] for i in range(nfuncs)]
+    # partial applications (with a __name__, as valjean's stats_worker builds them): [id, name, base, keyword value];
+    # same (base, value) = same function, although every use builds a new partial object
+    for base in range(rng.choice([0, 0, 1, 2])):
+        for val in range(rng.randrange(1, 3)):
+            funcs.append([100 + 10 * base + val, f'part{base}', base, val])
     for _ in range(rng.randrange(2, 13)):
         r = rng.random()
         if r < 0.45:
@@ -165,6 +170,18 @@ def make_func(fid, name, calls):
     return func
 
 
+def make_base(base, calls):
+    def func(*args, tag=None, **kwargs):
+        calls.append((100 + 10 * base + tag, args, kwargs))
+        return ('ret', 100 + 10 * base + tag)
+    func.__name__ = f'part{base}'
+    func.__qualname__ = f'part{base}'
+    return func
+
+
+_JOBS = [0]
+
+
 def tok(val):
     """canonical form of an injected value"""
     if isinstance(val, tuple) and len(val) == 2 and isinstance(val[1], dict):
@@ -182,7 +199,7 @@ def run_impl(case, run):
     from valjean.cosette.run import RunTaskFactory, RunTask
     from valjean.cosette.pythontask import PythonTask
     from valjean.cosette.task import close_dependency_graph, TaskStatus
-    from valjean.cambronne.common import check_unique_task_names
+    from valjean.cambronne.common import check_unique_task_names, collect_tasks
     saved = dict(Use._CACHE)
     Use._CACHE.clear()
     scratch = tempfile.mkdtemp(prefix='c15_')
@@ -223,7 +240,15 @@ def run_impl(case, run):
         return known(task)
 
     def get_func(spec):
-        fid, name = spec
+        fid, name = spec[0], spec[1]
+        if len(spec) > 2:
+            from functools import partial, update_wrapper
+            base, val = spec[2], spec[3]
+            if ('base', base) not in funcs:
+                funcs[('base', base)] = make_base(base, calls)
+            wrapped = partial(funcs[('base', base)], tag=val)       # a new partial object every time
+            update_wrapper(wrapped, funcs[('base', base)])
+            return wrapped
         if fid not in funcs:
             funcs[fid] = make_func(fid, name, calls)
         return funcs[fid]
@@ -280,12 +305,24 @@ def run_impl(case, run):
                 elif name == 'close':
                     tasks = [resolve(t) for t in op[1]]
                     tasks = [t for t in tasks if t is not None]
+                    # through the real entry point: a job file whose job() returns these tasks
+                    import sys as _sys
+                    import types as _types
+                    registry = _types.ModuleType('c15_registry')
+                    registry.TASKS = tasks
+                    _sys.modules['c15_registry'] = registry
+                    _JOBS[0] += 1
+                    job_file = os.path.join(scratch, f'c15job{_JOBS[0]}.py')
+                    with open(job_file, 'w', encoding='utf-8') as fobj:
+                        fobj.write('import sys\n\ndef job():\n    return list(sys.modules["c15_registry"].TASKS)\n')
                     closed = close_dependency_graph(tasks)
                     for tsk in closed:
                         known(tsk)
                     try:
-                        check_unique_task_names(closed)
+                        collected = collect_tasks(job_file, [], {})
                         unique = True
+                        if sorted(map(id, collected)) != sorted(map(id, closed)):
+                            unique = 'collect_tasks and close_dependency_graph disagree'
                     except ValueError:
                         unique = False
                     out = {'tasks': sorted(ids[id(t)] for t in closed), 'nodup': len({id(t) for t in closed}) == len(closed),
@@ -367,7 +404,7 @@ def run_model(case, driver, run):
                 if any(a[0] is None for a in args) or any(k[1] is None for k in kwargs):
                     ops.append(None)
                     continue
-                ops.append(['use', op[1], args, kwargs, op[4], op[5]])
+                ops.append(['use', op[1][:2], args, kwargs, op[4], op[5]])
             elif op[0] in ('make', 'userun'):
                 o = 2 if op[0] == 'make' else 3
                 deps = [res(t) for t in op[o + 4]]
@@ -375,7 +412,10 @@ def run_model(case, driver, run):
                 if any(t is None for t in deps + soft):
                     ops.append(None)
                     continue
-                ops.append(op[:o + 4] + [deps, soft])
+                mop = op[:o + 4] + [deps, soft]
+                if op[0] == 'userun':
+                    mop[2] = [f[:2] for f in op[2]]
+                ops.append(mop)
             elif op[0] == 'close':
                 ops.append(['close', [res(t) for t in op[1] if res(t) is not None]])
             else:
